@@ -18,6 +18,8 @@ pub enum R {
     /// through a Sender / a Caller the client has held since before any restart
     SendSnd,
     CallCal,
+    /// await the address (the client learns how the actor ended)
+    Await,
     Restart,
     CmdRestart,
     Sleep(u32),
@@ -37,6 +39,7 @@ fn to_op(r: R, id: u32) -> Op {
         R::Call => Op::Call(H::Addr(0), id),
         R::SendSnd => Op::Send(H::Snd(0), id),
         R::CallCal => Op::Call(H::Cal(0), id),
+        R::Await => Op::Await(H::Addr(0)),
         R::Restart => Op::Restart(H::Addr(0)),
         R::CmdRestart => Op::Cmd(H::Addr(0), id, Action::Restart),
         R::Sleep(t) => Op::Sleep(t),
@@ -239,6 +242,21 @@ fn oracle(s: &ProgScene<X>, t: &Trace) -> Vec<Violation> {
                     key: format!("C07/call-failed-across-restart/strategy={sk}"),
                     detail: format!("call by client {} op {} returned {res:?} although the actor never failed", o.c, o.i),
                 });
+            }
+        }
+    }
+    // (e0) ... and is reported as a failure to whoever awaits the address
+    if failed_start {
+        for o in &an.ops {
+            if let (Some(Op::Await(_)), Some(_)) = (op_at(o.c, o.i), o.end) {
+                crate::check::oblige("start-failure-on-restart-terminates");
+                if o.ok() {
+                    out.push(Violation {
+                        clause: "start-failure-on-restart-terminates",
+                        key: format!("C07/await-ok-after-failed-restart/strategy={sk}"),
+                        detail: "the start of a restart failed, yet awaiting the address reported a clean stop".into(),
+                    });
+                }
             }
         }
     }
@@ -637,6 +655,12 @@ fn cases(tier: Tier) -> Vec<Case> {
                             continue;
                         }
                         v.push(make_case(&[p], strat, mb, err, &[], 0, None));
+                    }
+                }
+                // somebody awaits the address while the restarts happen
+                if err.is_some() {
+                    for via in [R::Restart, R::CmdRestart] {
+                        v.push(make_case(&[vec![R::Call, via, R::Call], vec![R::Await]], strat, mb, err, &[], 0, None));
                     }
                 }
                 // two clients: [2] + [1]
